@@ -341,9 +341,10 @@ def validate(ctx, trace_path, prefixes, label, timeout=3000, heap="8g", per_sign
     if not r.ok:
         raise vlib.Infra("TLC failed on trace validation %s:\n%s" % (label, vlib.tail_errors(r.out)))
     found = []
-    for m in re.finditer(r'^<<"VIOL", "(\w+)", (\d+), (\d+)>>$', r.out, re.M):
+    # TLC wraps long tuples over several lines
+    for m in re.finditer(r'<<\s*"VIOL",\s*"(\w+)",\s*(\d+),\s*(\d+)\s*>>', r.out):
         found.append((m.group(1), int(m.group(2)), int(m.group(3)), ""))
-    for m in re.finditer(r'^<<"DRIFT", "(\w+)", (\d+), (\d+), "(.*)">>$', r.out, re.M):
+    for m in re.finditer(r'<<\s*"DRIFT",\s*"(\w+)",\s*(\d+),\s*(\d+),\s*"(.*?)"\s*>>', r.out, re.S):
         found.append((m.group(1), int(m.group(2)), int(m.group(3)), m.group(4)))
     missing_d = [n for n in drift if 'Drift("%s"' % n not in spec_txt]
     if missing_d:
@@ -386,7 +387,7 @@ def validate(ctx, trace_path, prefixes, label, timeout=3000, heap="8g", per_sign
 # the stage
 # ------------------------------------------------------------------------------------------------
 RULE = ("programs = (a) every transition of the exhaustive TLC state graph of spec/Stmt.tla over the listed scenarios/bounds, "
-        "each as a labelled path from Init (maximal paths; a seeded sample when there are more than the tier's cap), and "
+        "each as a labelled path from Init (maximal paths: all of them for the small-scope configurations Ax / Bx / Mx, a seeded sample covering as many program shapes as the tier's cap allows for the larger ones), and "
         "(b) seeded random well-formed programs from harness/cmd/stmt on random clusters (nested checkpoints, rollback, unevict, "
         "evict-then-pipeline of the same pod incl. to another GPU / node, gpu-fraction and gpu-memory pods on nodes whose devices "
         "have different memory sizes, convert, several statements per session, commit with injected Bind/Evict failures); every program runs on a real Statement of a fresh real Session; non-trivial = the program "
@@ -420,15 +421,65 @@ def count_cases(ctx, trace_path, sample_every=499):
 
 def plans_for(ctx):
     if ctx.quick:
-        return ([("A", SCN_WHOLE, dict(MaxOps=4, MaxFail=1, MaxStmts=1), 600),
-                 ("B", SCN_FRAC, dict(MaxOps=4, MaxFail=1, MaxStmts=1), 900),
-                 ("M", SCN_MEM, dict(MaxOps=3, MaxFail=1, MaxStmts=1), 600)], 110, 50)
+        # small scope, every maximal path executed (Ax, Bx); larger scope, a shape-covering sample (A, B, M)
+        return ([("Ax", SCN_WHOLE, dict(MaxOps=2, MaxFail=1, MaxStmts=1), 10 ** 9),
+                 ("Bx", SCN_FRAC, dict(MaxOps=2, MaxFail=1, MaxStmts=1), 10 ** 9),
+                 ("A", SCN_WHOLE, dict(MaxOps=4, MaxFail=1, MaxStmts=1), 450),
+                 ("B", SCN_FRAC, dict(MaxOps=4, MaxFail=1, MaxStmts=1), 700),
+                 ("M", SCN_MEM, dict(MaxOps=3, MaxFail=1, MaxStmts=1), 500)], 110, 50)
     # measured (TLC, 4 workers): A/6 67,073 distinct states 35 s; A2 41,468 / 37 s; B/5 69,769 / 43 s; C/4 47,602 / 33 s
-    return ([("A", SCN_WHOLE, dict(MaxOps=6, MaxFail=1, MaxStmts=1), 5000),
+    return ([("Ax", SCN_WHOLE, dict(MaxOps=3, MaxFail=1, MaxStmts=1), 10 ** 9),
+             ("Bx", SCN_FRAC, dict(MaxOps=3, MaxFail=1, MaxStmts=1), 10 ** 9),
+             ("Mx", SCN_MEM, dict(MaxOps=2, MaxFail=1, MaxStmts=1), 10 ** 9),
+             ("A", SCN_WHOLE, dict(MaxOps=6, MaxFail=1, MaxStmts=1), 5000),
              ("A2", SCN_WHOLE, dict(MaxOps=3, MaxFail=2, MaxStmts=2), 5000),
              ("B", SCN_FRAC, dict(MaxOps=5, MaxFail=1, MaxStmts=1), 6000),
              ("C", SCN_SHARE, dict(MaxOps=4, MaxFail=1, MaxStmts=1), 5000),
              ("M", SCN_MEM, dict(MaxOps=4, MaxFail=1, MaxStmts=1), 5000)], 800, 100)
+
+
+def shape_of(scn, path):
+    """abstract shape of a program: operation kinds, which operations touch the same pod (pods renamed by kind and
+    order of appearance), whether a placement goes to the pod's own node, checkpoints and commit outcomes - GPU
+    group names and concrete pod / node names are dropped."""
+    names = {}
+    out = []
+    for x in path:
+        l = json.loads(x)
+        t = [l["n"]]
+        if l.get("p"):
+            pd = scn["pods"][l["p"]]
+            key = l["p"]
+            if key not in names:
+                names[key] = "%s-%s-%d" % (pd["kind"], pd["st"], len(names))
+            t.append(names[key])
+            if l["n"] in ("Pipeline", "Allocate"):
+                t.append("own" if l.get("node") == pd["node"] else "other")
+                t.append(len(l.get("g", [])))
+        if l["n"] == "Pipeline":
+            t.append(l.get("upd"))
+        if l["n"] == "Rollback":
+            t.append(l.get("cp"))
+        if l["n"] == "CommitStep":
+            t.append(l.get("ok"))
+        out.append(tuple(t))
+    return tuple(out)
+
+
+def sample_by_shape(ctx, name, scn, leaves, cap, rnd):
+    """a seeded sample of the maximal paths that covers as many program shapes as the cap allows: one path of every
+    shape first (shapes in seeded random order), the rest drawn uniformly."""
+    by = {}
+    for p in leaves:
+        by.setdefault(shape_of(scn, p), []).append(p)
+    shapes = sorted(by)
+    rnd.shuffle(shapes)
+    chosen = [rnd.choice(by[sh]) for sh in shapes[:cap]]
+    if len(chosen) < cap:
+        rest = sorted(set(leaves) - set(chosen))
+        chosen += rnd.sample(rest, min(cap - len(chosen), len(rest)))
+    ctx.stage("sample-" + name, maximal_paths=len(leaves), shapes=len(shapes), replayed=len(chosen), shapes_covered=min(len(shapes), cap))
+    return sorted(chosen)
 
 
 def run_stage(ctx, prefixes):
@@ -445,7 +496,7 @@ def run_stage(ctx, prefixes):
         model_check(ctx, name, scn, bounds, prefixes)
         ntrans, leaves = export_paths(ctx, name, scn, bounds)
         if len(leaves) > cap:
-            leaves = sorted(rnd.sample(leaves, cap))
+            leaves = sample_by_shape(ctx, name, scn, leaves, cap, rnd)
         ctx.cov["edges_replayed_on_impl"] += sum(len(p) for p in leaves)
         traces.append(replay_paths(ctx, binary, name, scn, leaves))
     rt = os.path.join(ctx.scratch, "trace-random.ndjson")
